@@ -2,12 +2,64 @@
 import rules_tables as rt
 
 
+def check_lookahead(chk, F, rule="T4.lookahead"):
+    """T4: for every bit reader that advertises a look-ahead A to check_tables(), each decoding table either fits into the
+    look-ahead peek_bits can really guarantee (PEEK, derived from peek_bits' own obligations) or is diagnosed (A < READ_BITS)."""
+    import mir
+    import numabs
+    import rules_num as rn
+    from numabs import le, const
+    chk.rule(rule, floor=30, doc="per reader x word size x table: READ_BITS <= PEEK(impl) or the constructor's check_tables argument is < READ_BITS (diagnostic printed)")
+    tables = {c: int(rt.tables_of(F, c)["READ_BITS"]) for c in rt.MODS}
+    readers = []
+    for b in F.bodies:
+        if b["kind"] == "AssocFn" and b["path"].endswith("::new") and (b.get("impl_self") or "").startswith(("impls::buf_bit_reader::BufBitReader<", "impls::bit_reader::BitReader<")):
+            readers.append(b)
+    specs = {s.key: s for s in rn.reader_specs()}
+    for b in readers:
+        buffered = "buf_bit_reader" in b["path"]
+        widths = rn.READER_W if buffered else [64]
+        ps = [p for p in mir.walk(b) if p.end[0] == "return"]
+        ct = [e for p in ps for e in p.calls() if e[1] == "traits::bits::check_tables"]
+        if len(ct) != 1:
+            chk.bad(rule, b["path"] + "|check_tables", "%s does not call check_tables exactly once" % b["path"])
+            continue
+        for w in widths:
+            num = numabs.Num(b, numabs.Cfg(w), F)
+            a = num.aff(ct[0][2][0])
+            if a is None or not a.is_const():
+                chk.bad(rule, "%s@u%d|arg" % (b["path"], w), "check_tables argument %s is not a per-configuration constant" % mir.fmt(ct[0][2][0]))
+                continue
+            A = int(a.k)
+            for e in ("be", "le"):
+                key = ("reader.%s.peek_bits" if buffered else "bitreader.%s.peek_bits") % e
+                spec = specs[key]
+                def capacity(n):
+                    s2 = rn.Spec(spec.key, spec.find, [w], spec.inv, pre=rn.both(rn.arg_ge(2, "n_bits", 1), rn.arg_le(2, "n_bits", n)), inline=spec.inline)
+                    sites, npaths, summ, bb = rn.analyse(F, s2, w)
+                    return all(s["status"] == "discharged" for s in sites.values())
+                peek = None
+                for n in range(A, 0, -1):
+                    if capacity(n):
+                        peek = n
+                        break
+                for code, rb in sorted(tables.items()):
+                    ok = (peek is not None and rb <= peek) or A < rb
+                    chk.expect(rule, "%s<%s>@u%d|%s" % ("BufBitReader" if buffered else "BitReader", e.upper(), w, code), ok,
+                               "%s<%s> over u%d words: peek_bits guarantees %s bits after its single refill, the constructor tells check_tables it can peek %d, "
+                               "and the %s decoding table needs %d: table reads are silently wrong (no DANGER diagnostic)"
+                               % ("BufBitReader" if buffered else "BitReader", e.upper(), w, peek, A, code, rb),
+                               detail={"reader": b["path"], "cfg": "u%d" % w, "PEEK": peek, "advertised": A, "table": code, "READ_BITS": rb},
+                               sample={"reader": b["path"].split("::")[2], "cfg": "u%d" % w, "PEEK": peek, "advertised": A, "table": code, "READ_BITS": rb} if w == 32 else None)
+
+
 def run(chk, F, tier):
     rt.check_decode_tables(chk, F)
     rt.check_encode_tables(chk, F)
     rt.check_table_fns(chk, F)
     rt.check_param_plumbing(chk, F)
     rt.check_default_params(chk, F)
+    check_lookahead(chk, F)
 
 
 def run_all(chk, fsets, tier):
